@@ -125,7 +125,7 @@ def gen_map_pair(rng, name):
         body.append(ret)
     c.graphs["fn0"] = [S("e_", "pass", "p0", uid=90)] + body
     c.graphs["main"] = [S("d", "csrc", shape="tsd", uid=1), S("m", "map", "d", fn="fn1:0"), S("", "cmirror", "m", uid=11),
-                        S("", "maperr", "m", uid=12)]
+                        S("", "maperr", "m", uid=12, keysuid=13)]
     c.meta.update(how="map", thrower=x.uid(), entry_uid=90, kind="fn1")
     try:
         M.flatten(_solo_of(c))
@@ -239,7 +239,8 @@ def summarize_map(case, run):
     dumps = parse_dumps(run)
     out_m = {t: d for t, d, _ in dumps.get(11, [])}
     err_m = {t: d for t, d, _ in dumps.get(12, [])}
-    return dict(inst=inst, ident=ident, throws=throws, gstop=gstop, eps=eps, out=out_m, err=err_m)
+    errk_m = {t: d for t, d, _ in dumps.get(13, [])}
+    return dict(inst=inst, ident=ident, throws=throws, gstop=gstop, eps=eps, out=out_m, err=err_m, errk=errk_m)
 
 
 def check_map(case, tr):
@@ -368,6 +369,25 @@ def check_map(case, tr):
         if have != exp_have:
             V.append(Violation(f"error output at t={t}: holds entries for keys {sorted(have)} but the live instances that failed so "
                                f"far are {sorted(exp_have)}"))
+    # 3b. the key set of the error output (what `keys_(errors)` or a map over the errors sees) holds the failing keys only
+    keyset_ticks = 0
+    for t, d in sorted(bad["errk"].items()):
+        keyset_ticks += 1
+        members = {int(x) for x in d["vals"]}
+        exp_members = set()
+        for idn, lst in throwing.items():
+            if any(tt <= t for tt, _ in lst) and epoch_of(idn[0], t) == idn[1]:
+                exp_members.add(idn[0])
+        if members != exp_members:
+            V.append(Violation(f"key set of the error output at t={t}: {sorted(members)} but the keys whose live instance has failed so "
+                               f"far are {sorted(exp_members)}"))
+    for t, want in thr_by_t.items():
+        newly = {k for k in want if not any(tt < t and epoch_of(k, tt) == epoch_of(k, t) for (kk, st), lst in throwing.items() if kk == k
+                                             for tt, _ in lst)}
+        if newly and t not in bad["errk"]:
+            V.append(Violation(f"keys {sorted(newly)} failed for the first time at t={t} but the key set of the error output did not tick"))
+    if ok["errk"] and any(d["vals"] for d in ok["errk"].values()):
+        V.append(Violation(f"fault-free run: the key set of the error output is not empty"))
     if ok["err"]:
         V.append(Violation(f"fault-free run produced error ticks at {sorted(ok['err'])[:5]}"))
     # 4. the map output of every key epoch that never failed is the fault-free stream
@@ -389,7 +409,7 @@ def check_map(case, tr):
                                f"{sb.get(ke, [])[:5]} != {sa.get(ke, [])[:5]}"))
     del V[8:]
     n_thr = len(bad["throws"])
-    res.counters = {"map_key_throws": n_thr, "map_error_ticks_checked": err_ticks, "map_other_key_runs_compared": other_runs,
+    res.counters = {"map_key_throws": n_thr, "map_error_ticks_checked": err_ticks, "map_error_key_set_ticks": keyset_ticks, "map_other_key_runs_compared": other_runs,
                     "map_other_instances": other_insts, "map_other_key_output_ticks": out_cmp,
                     "map_later_activations_checked": later, "map_failing_instances": len(throwing)}
     res.nontrivial = n_thr >= 1 and other_insts >= 1
